@@ -242,7 +242,11 @@ impl<B: Region> BlockQueue<B> {
     unsafe fn push_relaxed(&self, block: B) -> Result<(), B> {
         let i = self.cursor.load(Ordering::Relaxed);
         if i < Self::CAPACITY {
+            #[cfg(mmtk_verif)]
+            crate::util::verif::rt::yield_point(crate::util::verif::rt::site::POOL_QUEUE);
             self.set_entry(i, block);
+            #[cfg(mmtk_verif)]
+            crate::util::verif::rt::yield_point(crate::util::verif::rt::site::POOL_QUEUE);
             self.cursor.store(i + 1, Ordering::Relaxed);
             Ok(())
         } else {
@@ -252,6 +256,8 @@ impl<B: Region> BlockQueue<B> {
 
     /// Atomically pop an element from the array.
     fn pop(&self) -> Option<B> {
+        #[cfg(mmtk_verif)]
+        crate::util::verif::rt::yield_point(crate::util::verif::rt::site::POOL_QUEUE);
         let i = self
             .cursor
             .fetch_update(Ordering::SeqCst, Ordering::SeqCst, |i| {
@@ -262,6 +268,8 @@ impl<B: Region> BlockQueue<B> {
                 }
             });
         if let Ok(i) = i {
+            #[cfg(mmtk_verif)]
+            crate::util::verif::rt::yield_point(crate::util::verif::rt::site::POOL_QUEUE);
             Some(self.get_entry(i - 1))
         } else {
             None
@@ -295,6 +303,8 @@ impl<B: Region> BlockQueue<B> {
         self.cursor
             .store(new_array.cursor.load(Ordering::Relaxed), Ordering::Relaxed);
         new_array.cursor.store(temp, Ordering::Relaxed);
+        #[cfg(mmtk_verif)]
+        crate::util::verif::rt::yield_point(crate::util::verif::rt::site::POOL_QUEUE);
         // Swap data
         unsafe {
             core::ptr::swap(self.data.get(), new_array.data.get());
@@ -339,7 +349,12 @@ impl<B: Region> BlockPool<B> {
 
     /// Push a block to the thread-local queue
     pub fn push(&self, block: B) {
+        #[cfg(mmtk_verif)]
+        crate::util::verif::rt::yield_point(crate::util::verif::rt::site::POOL_POOL);
         self.count.fetch_add(1, Ordering::SeqCst);
+        #[cfg(mmtk_verif)]
+        crate::util::verif::rt::yield_point(crate::util::verif::rt::site::POOL_POOL);
+
         let id = crate::scheduler::current_worker_ordinal();
         let failed = unsafe {
             self.worker_local_freed_blocks[id]
@@ -361,6 +376,8 @@ impl<B: Region> BlockPool<B> {
         if self.len() == 0 {
             return None;
         }
+        #[cfg(mmtk_verif)]
+        crate::util::verif::rt::yield_point(crate::util::verif::rt::site::POOL_POOL);
         let head_global_freed_blocks = self.head_global_freed_blocks.upgradeable_read();
         if let Some(block) = head_global_freed_blocks.as_ref().and_then(|q| q.pop()) {
             self.count.fetch_sub(1, Ordering::SeqCst);
@@ -374,6 +391,8 @@ impl<B: Region> BlockPool<B> {
             }
             // Get a new list of blocks for allocation
             let blocks = global_freed_blocks.pop()?;
+            #[cfg(mmtk_verif)]
+            crate::util::verif::rt::yield_point(crate::util::verif::rt::site::POOL_POOL);
             let block = blocks.pop().unwrap();
             if !blocks.is_empty() {
                 let mut head_global_freed_blocks = head_global_freed_blocks.upgrade();
